@@ -190,7 +190,7 @@ U_SCALE = Unit(P + '/lemma-scaling', [], t_scaling, SCH, kind='lemma')
 
 
 # ---------------------------------------------------------------- the radiation sum (free space / ideal ground)
-NP_, NA_, NZ_ = 2, 2, 1        # pulses, azimuths, zenith angles of the shape-bounded run
+SHAPES = [(1, 2, 2), (2, 1, 1), (1, 1, 3)]        # (zenith angles, azimuths, pulses) of the shape-bounded runs
 
 
 def sym_nd(shape, base):
@@ -230,6 +230,7 @@ def t_radiation(eng):
     r^ = (sin t cos p, sin t sin p, cos t), theta^ = (cos t cos p, cos t sin p, -sin t), phi^ = (-sin p, cos p, 0)."""
     n = P + '/compute_far_field[radiation sum]/'
     f, stmts = radiation_slice(eng)
+    NZ_, NA_, NP_ = SHAPES[eng.choose(len(SHAPES))]
     ground = eng.choose(2) == 1
     gcase = eng.choose(3) if ground else 0         # pulse 0: 0 = no grounded end, 1 = end 1 grounded, 2 = end 2 grounded
     m = SObj('Mininec', label='m')
@@ -246,7 +247,7 @@ def t_radiation(eng):
     pv = SObj('Pulse_Container', label='pulses')
     m.fields['pulses'] = pv
     point = sym_nd((NP_, 3), 'pt')
-    gr = [[gcase == 1, gcase == 2], [False, False]]
+    gr = [[gcase == 1, gcase == 2]] + [[False, False] for _ in range(NP_ - 1)]
     if gcase:
         point.data[0][2] = 0
     sign = sym_nd((NP_, 2), 'sg')
@@ -274,7 +275,7 @@ def t_radiation(eng):
         eng.exec_block(stmts, env)
     finally:
         eng.frames.pop()
-    eng.cover('radiation-ground%d-case%d' % (ground, gcase))
+    eng.cover('radiation-shape%d%d%d-ground%d-case%d' % (NZ_, NA_, NP_, ground, gcase))
     h12, x34 = env['h12'], env['x34']
     ok = isinstance(h12, NDArr) and isinstance(x34, NDArr) and h12.shape == (NZ_, NA_) and x34.shape == (NZ_, NA_)
     eng.oblige(n + 'one-value-per-requested-direction', ok, detail=str((getattr(h12, 'shape', None), getattr(x34, 'shape', None))))
@@ -347,7 +348,7 @@ U_RAD = Unit(P + '/compute_far_field-radiation-sum', [Q], t_radiation, SCH,
                         'image_iter(), projections); dropped: the statements before (ff_dist, ff_power, media tables, rd), '
                         'the real-ground branch is not entered '
                         '(free space / ideal ground only), the dBi/V-per-m tail (unit compute_far_field-tail)'},
-             notes='bounded(shape): 1 zenith x 2 azimuths x 2 pulses; all values symbolic; grounded pulse assumed on the plane (z = 0)',
+             notes='bounded(shape): (zenith x azimuth x pulses) in {1x2x2, 2x1x1, 1x1x3}; all values symbolic; grounded pulse assumed on the plane (z = 0)',
              canaries=[Canary('image-keeps-horizontal-components', Q, _ImageKeepsXY, [P + '/compute_far_field[radiation sum]/E(']),
                        Canary('every-azimuth-uses-the-first-direction', Q, _FirstAzimuthOnly, [P + '/compute_far_field[radiation sum]/E(']),
                        Canary('grounded-half-not-doubled', Q, _GroundedHalfNotDoubled, [P + '/compute_far_field[radiation sum]/E(']),
